@@ -147,7 +147,7 @@ def run(chk):
            "compile_query does not project the select list in the order of query.select")  # fmt: skip
     from .. import pipesim as _ps
 
-    _ps.report(chk, m, "E2E", ['compile-error', 'placement', 'limit', 'order', 'select', 'shape'], depth_quick=3, depth_thorough=4, floor=1000)
+    _ps.report(chk, m, "E2E", ['compile-error', 'placement', 'limit', 'order', 'select', 'shape', 'recompile'], depth_quick=3, depth_thorough=4, floor=1000)
 
     pol = repo.mod("backend.polars")
     pexp = pol.func("PolarsImpl.export")
